@@ -959,7 +959,8 @@ func bkMulti(w *coll, rnd *lib.Rand, scratch string, l int) {
 // overflow: a client that never reads. The hub buffer (10000), the batch processEvents holds and the
 // result channel (100) fill up; the next batch is dropped and the subscription deleted asynchronously.
 // parkDeleter = the spawned deleter is held at its first metric emission while the client takes one batch and
-// one more write arrives (finding C05-F1).
+// one more write arrives. With the deletion on the hub's own goroutine (fix of C05-F1) that write is fanned out only
+// after the subscription is gone; if a batch is ever accepted after the dropped one the case is an unlisted VIOLATION.
 func bkOverflow(w *coll, scratch string, parkDeleter bool) {
 	r, err := newBkRig(8, 100, scratch)
 	if err != nil {
@@ -1030,7 +1031,7 @@ func bkOverflow(w *coll, scratch string, parkDeleter bool) {
 			// the hub itself is running the deleter (synchronous delete, i.e. C05-F1 repaired): let it finish
 			syncDelete = true
 			r.hk.releaseDeleters()
-			r.sc.labs(lW("LConsume", wt.id), lW("LHubDelete", wt.id))
+			r.sc.lab(lW("LConsume", wt.id))
 		}
 		r.through(sl)
 		if syncDelete {
@@ -1045,9 +1046,7 @@ func bkOverflow(w *coll, scratch string, parkDeleter bool) {
 		}
 		r.sc.drops(int(atomic.LoadInt32(&r.hk.drops)))
 		r.hk.releaseDeleters()
-		r.sc.lab(lW("LHubDelete", wt.id))
 	}
-	r.sc.lab(lW("LHubDelete", wt.id))
 	r.hubN += total + 2
 	mon.hubbed = 0
 	// the client now reads everything
@@ -1066,7 +1065,7 @@ func bkOverflow(w *coll, scratch string, parkDeleter bool) {
 	r.kinds["overflow"] = true
 	kind := "backend-overflow-prompt-delete"
 	if parkDeleter {
-		kind = "backend-overflow-async-delete"
+		kind = "backend-overflow-deleter-held"
 	}
 	r.close(w, kind)
 }
